@@ -81,6 +81,9 @@ class Single(object):
       self.n_faults += 1
       ch = self.reg.channels[op[1]]
       from scales.message import MethodReturnMessage
+      from scales.constants import ChannelState
+      if ch.state == ChannelState.Closed:
+        ch.refaulted = getattr(ch, 'refaulted', 0) + 1
       busy = [r for r in self.reqs if r['serial'] == ch.serial and not r['done']]
       ch.fault('died')
       for r in busy:
@@ -130,6 +133,11 @@ class Single(object):
       for c in self.live():
         if not c.open_ars:
           ops.append(['Fault', c.serial])
+      # a connection that has already failed raises its fault signal once more (duplicate / late notification)
+      from scales.constants import ChannelState
+      for c in self.reg.channels:
+        if c.state == ChannelState.Closed and c.close_calls == 0 and getattr(c, 'refaulted', 0) < 1 and self.n_faults > 0:
+          ops.append(['Fault', c.serial])
     for c in self.reg.channels:
       if c.open_ars:
         ops.append(['OpenOk', c.serial])
@@ -137,7 +145,7 @@ class Single(object):
     return ops
 
   def key(self):
-    ch = tuple((c.state, c.close_calls, len(c.open_ars), c.open_calls, self.pool.next_sink is c) for c in self.reg.channels)
+    ch = tuple((c.state, c.close_calls, len(c.open_ars), c.open_calls, self.pool.next_sink is c, getattr(c, 'refaulted', 0)) for c in self.reg.channels)
     rq = tuple((r['serial'], r['done'], r['g'].dead) for r in self.reqs)
     return repr((self.pool._ref_count, ch, rq, self.opens, self.closes, self.n_faults))
 
